@@ -1,5 +1,6 @@
 import ZmqVerif.Lemmas.Endpoint
 import ZmqVerif.Lemmas.IpLaws
+import ZmqVerif.Lemmas.Ip6Laws
 import ZmqVerif.Spec.EndpointGrammar
 /-!
 # C19 — endpoint parsing is total, strict, and round-trips through its text form
@@ -7,8 +8,8 @@ import ZmqVerif.Spec.EndpointGrammar
 `parseEndpoint`/`display` mirror `Endpoint::from_str`/`Display` (`Model.Endpoint`), over
 an abstract `IpModel` of `std::net`; `Laws` is exactly what is assumed of `std::net`.  For the
 executable models of `Model.Ip` (which the correspondence check runs against the real `std`)
-every law is PROVED (`Lemmas.IpLaws`) except the IPv6 print/parse round trip, which remains the one
-hypothesis of `C19_roundtrip_std` and is validated by sampling.
+every law is PROVED (`Lemmas.IpLaws`, `Lemmas.Ip6Laws`), including both print/parse round trips:
+`C19_roundtrip_std` has no hypothesis left.
 -/
 namespace Zmq.C19
 open Zmq.Ep Zmq.Ip
@@ -19,18 +20,22 @@ theorem C19_roundtrip (m : IpModel) (L : Laws m) (s : Str) (e : Endpoint m)
     (hp : parseEndpoint m s = .ok e) : parseEndpoint m (display m e) = .ok e :=
   roundtrip m L s e hp
 
-/-- The same for the executable models of `std::net`'s address text: the IPv4 laws (round trip of
-all 2^32 addresses, character set, non-emptiness) and the shape of IPv6 text are theorems; what is
-left to assume is `Ipv6Addr`'s own print/parse round trip. -/
-theorem C19_roundtrip_std (h6 : ∀ a : Ip.Ip6, Ip.parse6 (Ip.show6 a) = some a) (s : Str)
-    (e : Endpoint stdModel) (hp : parseEndpoint stdModel s = .ok e) :
+/-- The same for the executable models of `std::net`'s address text, with NO hypothesis: every law —
+the IPv4 round trip of all 2^32 addresses, the IPv6 round trip of all 2^128 addresses (RFC 5952
+printing against the recursive-descent parser), character sets, text shapes — is a theorem
+(`Lemmas.IpLaws`, `Lemmas.Ip6Laws`).  What remains trusted is that these executable models ARE
+`std::net` (sampled against the real std by the correspondence check). -/
+theorem C19_roundtrip_std (s : Str) (e : Endpoint stdModel) (hp : parseEndpoint stdModel s = .ok e) :
     parseEndpoint stdModel (display stdModel e) = .ok e :=
-  roundtrip stdModel (stdLaws h6) s e hp
+  roundtrip stdModel stdLawsFull s e hp
+
+/-- IPv6 literals: every address's text form parses back to it … -/
+theorem C19_ipv6_roundtrip (a : Ip.Ip6) : Ip.parse6 (Ip.show6 a) = some a := Ip.rt6 a
 
 /-- IPv4 literals: every address's text form parses back to it (no hypothesis) … -/
 theorem C19_ipv4_roundtrip (a : Ip.Ip4) : Ip.parse4 (Ip.show4 a) = some a := Ip.rt4 a
 
-/-- … and non-vacuity of the IPv6 hypothesis on the corner cases of RFC 5952 printing: all-zero,
+/-- … the corner cases of RFC 5952 printing, evaluated by the kernel: all-zero,
 loopback, a run in the middle, two equal runs (first wins), a run at the end, no run, v4-mapped. -/
 example : ∀ a ∈ ([mkIp6 [0,0,0,0,0,0,0,0], mkIp6 [0,0,0,0,0,0,0,1], mkIp6 [1,0,0,0,5,6,7,8],
                   mkIp6 [1,0,0,4,0,0,7,8], mkIp6 [1,2,3,4,5,6,0,0], mkIp6 [1,2,3,4,5,6,7,8],
